@@ -2,7 +2,8 @@
 rule body that branches on a value would go wrong, and Python-level operand types."""
 import numpy as onp
 
-import impl_rules as R
+import sys
+R = sys.modules.get("__main__") if hasattr(sys.modules.get("__main__"), "Case") else __import__("impl_rules")
 
 
 def extra_cases(rng, tier):
@@ -82,7 +83,7 @@ def extra_cases(rng, tier):
                    ("dot(x, [1,2,3])", lambda m, a: m.dot(a, [1, 2, 3])), ("dot([[1,2,3],[4,5,6]], x)", lambda m, a: m.dot([[1, 2, 3], [4, 5, 6]], a)),
                    ("x / 2 (int)", lambda m, a: a / 2), ("x * (1, 2, 3) tuple", lambda m, a: m.multiply(a, (1, 2, 3))),
                    ("subtract(x, np.arange(3)) int array", lambda m, a: m.subtract(a, onp.arange(3))), ("x * bool array", lambda m, a: a * onp.array([True, False, True])),
-                   ("where(list cond)", lambda m, a: m.where([True, False, True], a, 0)), ("x[np.int64(1)]", lambda m, a: a[onp.int64(1)] * a),
+                   ("where(list cond)", lambda m, a: m.where([True, False, True], a, 0)), ("x[np.int64(1)]", lambda m, a: a[onp.int64(1)] + a),
                    ("x[True-mask list]", lambda m, a: a[[True, False, True]]), ("tensordot(x, [[1],[2],[3]], 1)", lambda m, a: m.tensordot(a, [[1], [2], [3]], 1)),
                    ("concatenate([x, [1.0, 2.0]])", lambda m, a: m.concatenate([a, [1.0, 2.0]])), ("maximum(x, 0) int", lambda m, a: m.maximum(a + 0.5, 0)),
                    ("outer(x, range)", lambda m, a: m.outer(a, onp.arange(2)))):
